@@ -61,6 +61,20 @@ db.Open = 7
     return out
 
 
+def dead_code_programs():
+    """unreachable statements that call otherwise unused functions: nothing of them may be emitted
+    where the terminating main code can fall into it"""
+    out = []
+    out.append(("dead:after_return", HDR + "def report(v):\n    db.Setting = v\n\ndef update():\n    db.Mode = 1\n    return\n    report(2)\n\nupdate()\ndb.On = 0\n"))
+    out.append(("dead:after_return_value", HDR + "def report(v):\n    db.Setting = v\n    return v + 1\n\ndef update(a):\n    db.Mode = a\n    return a * 2\n    x = report(a)\n    return x\n\ndb.On = update(d0.Setting)\n"))
+    out.append(("dead:after_break", HDR + "def report(v):\n    db.Setting = v\n\nc = 0\nwhile c < 3:\n    c += 1\n    db.Mode = c\n    break\n    report(c)\ndb.On = 0\n"))
+    out.append(("dead:after_continue", HDR + "def report(v):\n    db.Setting = v\n\nc = 0\nwhile c < 2:\n    c += 1\n    db.Mode = c\n    continue\n    report(c)\ndb.On = 0\n"))
+    out.append(("dead:never_called", HDR + "def report(v):\n    db.Setting = v\n\ndef unused(a):\n    report(a)\n    report(a + 1)\n\ndb.On = d0.Setting\n"))
+    out.append(("dead:if_false", HDR + "def report(v):\n    db.Setting = v\n\nif False:\n    report(1)\n    report(2)\ndb.On = d0.Setting\n"))
+    out.append(("dead:if_zero_else", HDR + "def report(v):\n    db.Setting = v\n\nif 1:\n    db.Mode = 1\nelse:\n    report(1)\n    report(2)\ndb.On = d0.Setting\n"))
+    return out
+
+
 WITNESS_RETURN = HDR + """
 def f(x):
     db.Setting = x
@@ -92,8 +106,10 @@ def run(tier: str) -> int:
             items.append(("monitor", sp))
     for name, srcs in base.repo_sources():
         items.append(("monitor", dict(name=name, sources=srcs, tier=tier, strict=False, halt_on_fallthrough=False, opts={"inline_functions": False})))
-    for name, src in const_test_programs():
-        for vec in ({}, {"inline_functions": False}):
+    for name, src in const_test_programs() + dead_code_programs():
+        # dead statements are not pruned without inlining (their callee is then emitted and the recorded
+        # fall-through applies): the dead-code programs are checked under the default options only
+        for vec in (({},) if name.startswith("dead:") else ({}, {"inline_functions": False})):
             items.append(("monitor", dict(name=name, sources=src, tier=tier, halt_on_fallthrough=False, opts=vec)))
             items.append(("src_vs_ic10", dict(name=name, sources=src, tier=tier, opts=vec)))
     items.append(("monitor", dict(name="witness:fallthrough", sources=WITNESS_FALLTHROUGH, tier=tier, halt_on_fallthrough=False)))
